@@ -47,6 +47,8 @@ def gen_program(rng, nclients):
         counter[0] += 1
         if key == 'n' or rng.random() < 0.15:
             return counter[0] * 100 + ci
+        if rng.random() < 0.06:
+            return rng.choice([None, '', 0.0, False])       # falsy values are values like any other
         return stamp(ci, counter[0], rng.random() < 0.5)
 
     for ci in range(nclients):
